@@ -1,5 +1,6 @@
 import GqlVerif.Model.Codegen
 import GqlVerif.Props.C17
+import GqlVerif.Props.C11
 /-!
 # C02 (closure part) and C17 (fuel of the code-generation walks is never exhausted)
 
@@ -1152,6 +1153,509 @@ theorem inputItems_mentions_defined (c : Ctx) (op : Nat) (u : UsedTypes) (S E I 
   intro item hitem
   obtain ⟨k, i, hk, hi, hf⟩ := inputItems_origin hI item hitem
   exact input_item_mentions_defined c op u S E I hnorm hkw hwf hrel hu hS hE hI k i hk hi item hf
+
+
+/-! ### the naming hypothesis of D is needed (defect candidate) -/
+
+/-- `input In { f: type }` -/
+def kwIn : StoredInput := { name := "In", fields := [("f", { id := .input 1, quals := [] })], isOneOf := false }
+/-- `input type { x: Int }` — `type` is a legal GraphQL name and a Rust keyword -/
+def kwType : StoredInput := { name := "type", fields := [("x", { id := .scalar 2, quals := [] })], isOneOf := false }
+def kwSchema : Schema :=
+  { objects := [{ name := "Query", fields := [], implements := [] }],
+    scalars := Schema.defaultScalars,
+    inputs := [kwIn, kwType] }
+/-- `query Q($v: In) { __typename }` -/
+def kwQuery : Query :=
+  { operations := [{ name := "Q", kind := .query, objectId := 0, sels := [.typename] }],
+    variables := [{ opIdx := 0, name := "v", default := none, ty := { id := .input 0, quals := [] } }] }
+def kwCtx : Ctx := { s := kwSchema, q := kwQuery, o := {}, cs := ⟨id, id⟩ }
+
+/-- **without the naming hypothesis D is false** (mirrors `codegen/inputs.rs`: the struct name goes
+    through `keyword_replace`, the field type identifier does not): both inputs are used, the struct
+    emitted for `In` mentions `type`, the struct emitted for the input `type` is called `type_` -/
+theorem keyword_input_name_mismatch :
+    (allUsedTypes kwSchema kwQuery 0).toOption.map (·.types) = some [.scalar 2, .input 1, .input 0] ∧
+    OutputOnly kwSchema kwQuery = true ∧ InputFieldsRelevant kwSchema = true ∧
+    ∃ item1 item2, inputItem kwCtx kwIn = .ok item1 ∧ inputItem kwCtx kwType = .ok item2 ∧
+      itemMentions item1 = ["type"] ∧ item1.name = "In" ∧ item2.name = "type_" := by
+  refine ⟨by decide, by decide, by decide, ?_⟩
+  have h1 : keywordReplace "In" = "In" := by rw [C11.keywordReplace_spec]; simp; decide +kernel
+  have h2 : keywordReplace "type" = "type_" := by rw [C11.keywordReplace_spec]; simp; decide +kernel
+  have e2 : inputItem kwCtx kwType = .ok (.struct (keywordReplace "type") (allVariableDerives {}) (some "::serde")
+      [{ rust := keywordReplace "x", rename := fieldRename "x" (keywordReplace "x"), ty := .opt (.path "Int"),
+         skipNone := false }]) := by
+    simp [inputItem, kwType, kwCtx, inputFieldType, Schema.typeName, Schema.getScalar, kwSchema, Schema.defaultScalars,
+      fieldType_none, decorateType, bind, Except.bind, pure, Except.pure, TypeId.asInput?, Normalization.inputName,
+      Normalization.camelCase, Ctx.serdeCrate, FieldType.isOptional]
+  have e1 : inputItem kwCtx kwIn = .ok (.struct (keywordReplace "In") (allVariableDerives {}) (some "::serde")
+      [{ rust := keywordReplace "f", rename := fieldRename "f" (keywordReplace "f"), ty := .opt (.path "type"),
+         skipNone := false }]) := by
+    have h1 : inputIsRecursive kwSchema 1 = false := by decide
+    have h2 : kwSchema.getInput 1 = .ok kwType := rfl
+    simp [inputItem, kwIn, kwCtx, inputFieldType, Schema.typeName, h1, h2, kwType,
+      fieldType_none, decorateType, bind, Except.bind, pure, Except.pure, TypeId.asInput?, Normalization.inputName,
+      Normalization.camelCase, Ctx.serdeCrate, FieldType.isOptional, Functor.map, Except.map]
+  exact ⟨_, _, e1, e2, rfl, h1, h2⟩
+
+/-- the naming hypothesis in decidable form: no input type is named like a Rust keyword of the table -/
+theorem hkw_of_not_keyword (s : Schema) (h : ∀ i ∈ s.inputs, i.name ∉ Gen.keywordTable) :
+    ∀ i ∈ s.inputs, keywordReplace i.name = i.name := by
+  intro i hi
+  rw [C11.keywordReplace_spec, if_neg (h i hi)]
+
+example : ∀ i ∈ goodSchema.inputs, keywordReplace i.name = i.name :=
+  hkw_of_not_keyword _ (by decide +kernel)
+example : InputFieldsRelevant goodSchema = true := by decide
+
+/-! ## E. the fuel of the `calc*` block (`calcSelection` / `calcVariants` / `calcVariantSels` / `calcFields`) -/
+
+
+/-- the result is not an "out of fuel" (`unmodelled`) error -/
+def Clean {α} (r : Outcome α) : Prop := ∀ w, r ≠ .error (.unmodelled w)
+
+theorem Clean.pure {α} (a : α) : Clean (Pure.pure a : Outcome α) := by intro w h; cases h
+theorem Clean.ok {α} (a : α) : Clean (.ok a : Outcome α) := by intro w h; cases h
+theorem Clean.panic {α} (m : String) : Clean (panic' m : Outcome α) := by intro w h; cases h
+theorem Clean.bind {α β} {x : Outcome α} {f : α → Outcome β} (hx : Clean x)
+    (hf : ∀ a, x = .ok a → Clean (f a)) : Clean (x >>= f) := by
+  cases x with
+  | error e => intro w h; (change Except.error e = _ at h; cases h; exact hx w rfl)
+  | ok a => exact hf a rfl
+theorem Clean.map {α β} {x : Outcome α} {f : α → β} (hx : Clean x) : Clean (f <$> x) := by
+  cases x with
+  | error e => intro w h; (change Except.error e = _ at h; cases h; exact hx w rfl)
+  | ok a => intro w h; cases h
+
+theorem Clean.getElem {α} (l : List α) (i : Nat) (m : String) :
+    Clean (match l[i]? with | some o => (Pure.pure o : Outcome α) | none => panic' m) := by
+  split
+  · exact Clean.pure _
+  · exact Clean.panic _
+
+theorem clean_getFragment (q : Query) (i : Nat) : Clean (q.getFragment i) := by
+  unfold Query.getFragment; split <;> first | exact Clean.pure _ | exact Clean.panic _
+theorem clean_getField (s : Schema) (i : Nat) : Clean (s.getField i) := by
+  unfold Schema.getField; split <;> first | exact Clean.pure _ | exact Clean.panic _
+theorem clean_getEnum (s : Schema) (i : Nat) : Clean (s.getEnum i) := by
+  unfold Schema.getEnum; split <;> first | exact Clean.pure _ | exact Clean.panic _
+theorem clean_getScalar (s : Schema) (i : Nat) : Clean (s.getScalar i) := by
+  unfold Schema.getScalar; split <;> first | exact Clean.pure _ | exact Clean.panic _
+theorem clean_getInput (s : Schema) (i : Nat) : Clean (s.getInput i) := by
+  unfold Schema.getInput; split <;> first | exact Clean.pure _ | exact Clean.panic _
+theorem clean_getObject (s : Schema) (i : Nat) : Clean (s.getObject i) := by
+  unfold Schema.getObject; split <;> first | exact Clean.pure _ | exact Clean.panic _
+theorem clean_getInterface (s : Schema) (i : Nat) : Clean (s.getInterface i) := by
+  unfold Schema.getInterface; split <;> first | exact Clean.pure _ | exact Clean.panic _
+theorem clean_getUnion (s : Schema) (i : Nat) : Clean (s.getUnion i) := by
+  unfold Schema.getUnion; split <;> first | exact Clean.pure _ | exact Clean.panic _
+
+theorem clean_typeName (s : Schema) (t : TypeId) : Clean (s.typeName t) := by
+  cases t <;> simp only [Schema.typeName]
+  · exact (clean_getObject s _).map
+  · exact clean_getScalar s _
+  · exact (clean_getInterface s _).map
+  · exact (clean_getUnion s _).map
+  · exact (clean_getEnum s _).map
+  · exact (clean_getInput s _).map
+
+theorem clean_variantsOf (s : Schema) (t : TypeId) : Clean (variantsOf s t) := by
+  cases t <;> simp only [variantsOf] <;> try exact Clean.pure _
+  exact Clean.bind (clean_getUnion s _) (fun _ _ => Clean.pure _)
+
+theorem clean_variantSelOf (q : Query) (ty : TypeId) (x : Sel) : Clean (variantSelOf q ty x) := by
+  cases x <;> simp only [variantSelOf] <;> try exact Clean.pure _
+  exact Clean.bind (clean_getFragment q _) (fun _ _ => Clean.pure _)
+
+theorem clean_foldlM {α β} (f : β → α → Outcome β) (hf : ∀ b x, Clean (f b x)) :
+    ∀ (l : List α) (b : β), Clean (l.foldlM f b)
+  | [], b => by rw [List.foldlM_nil]; exact Clean.pure _
+  | a :: l, b => by
+    rw [List.foldlM_cons]
+    exact Clean.bind (hf b a) (fun b' _ => clean_foldlM f hf l b')
+
+theorem clean_filterMapM {α β} (f : α → Outcome (Option β)) (hf : ∀ x, Clean (f x)) :
+    ∀ (l : List α), Clean (l.filterMapM f)
+  | [] => by rw [List.filterMapM_nil]; exact Clean.pure _
+  | a :: l => by
+    rw [List.filterMapM_cons]
+    refine Clean.bind (hf a) (fun o _ => ?_)
+    cases o with
+    | none => exact clean_filterMapM f hf l
+    | some b => exact Clean.bind (clean_filterMapM f hf l) (fun _ _ => Clean.pure _)
+
+theorem clean_decorateType (base : RTy) (quals : List Qual) : Clean (decorateType base quals) := by
+  unfold decorateType
+  refine Clean.bind (clean_foldlM _ ?_ _ _) (fun _ _ => Clean.pure _)
+  intro st q
+  unfold decorateStep
+  split <;> first | exact Clean.pure _ | exact Clean.panic _
+
+theorem clean_renderField (c : Ctx) (g : Option String) (r ft : String) (quals : List Qual) (fl bx : Bool)
+    (dep : Option (Option String)) : Clean (renderField c g r ft quals fl bx dep) := by
+  unfold renderField
+  refine Clean.bind (clean_decorateType _ _) (fun _ _ => ?_)
+  simp only []
+  split <;> exact Clean.pure _
+
+
+
+/-! ### structural facts -/
+
+theorem selSize_pos (x : Sel) : 1 ≤ selSize x := by
+  cases x <;> simp [selSize]
+
+theorem length_le_selsSize : ∀ l : List Sel, l.length ≤ selsSize l
+  | [] => by simp [selsSize]
+  | x :: xs => by
+    have := length_le_selsSize xs
+    have := selSize_pos x
+    rw [selsSize.eq_2]; simp only [List.length_cons]; omega
+
+theorem selSize_le_of_mem {x : Sel} : ∀ {l : List Sel}, x ∈ l → selSize x ≤ selsSize l
+  | [], h => by simp at h
+  | y :: ys, h => by
+    rw [selsSize.eq_2]
+    simp only [List.mem_cons] at h
+    rcases h with rfl | h
+    · omega
+    · have := selSize_le_of_mem h; omega
+
+theorem selsDepth_cons_pos (x : Sel) (xs : List Sel) : 1 ≤ selsDepth (x :: xs) := by
+  rw [selsDepth.eq_2]
+  have := selDepth_pos x
+  omega
+
+section CalcFuel
+variable (c : Ctx) (N M : Nat)
+
+/-- fuel bound for `calcSelection` on a selection set of depth `≤ e` -/
+def Sb (e : Nat) : Nat := e * (N + M + 4) + M + 4
+/-- fuel bound for `calcFields` on a selection set of depth `≤ e` and length `L` -/
+def Fneed : Nat → Nat → Nat
+  | 0, _ => 1
+  | e+1, L => L + 1 + Sb N M e
+
+def InlOK (e : Nat) (vsels : List VariantSel) : Prop :=
+  ∀ t sub, VariantSel.inline t sub ∈ vsels → selsDepth sub ≤ e ∧ selsSize sub ≤ N
+
+def Stmt1 (fuel : Nat) : Prop := ∀ name pfx ty sels e, selsDepth sels ≤ e → selsSize sels ≤ N →
+  Sb N M e ≤ fuel → Clean (calcSelection c fuel name pfx ty sels)
+def Stmt2 (fuel : Nat) : Prop := ∀ name pfx vsels vts e, InlOK N e vsels →
+  vts.length + 1 + vsels.length + 1 + Fneed N M e N ≤ fuel → Clean (calcVariants c fuel name pfx vsels vts)
+def Stmt3 (fuel : Nat) : Prop := ∀ sname pfx vt mine e, InlOK N e mine →
+  mine.length + 1 + Fneed N M e N ≤ fuel → Clean (calcVariantSels c fuel sname pfx vt mine)
+def Stmt4 (fuel : Nat) : Prop := ∀ pfx ty sels e, selsDepth sels ≤ e → selsSize sels ≤ N →
+  Fneed N M e sels.length ≤ fuel → Clean (calcFields c fuel pfx ty sels)
+
+macro "clean_leaf" : tactic => `(tactic| first
+  | exact Clean.pure _ | exact Clean.ok _ | exact Clean.panic _
+  | exact clean_getFragment _ _ | exact clean_getField _ _ | exact clean_getEnum _ _
+  | exact clean_getScalar _ _ | exact clean_typeName _ _ | exact clean_renderField _ _ _ _ _ _ _ _
+  | assumption)
+
+macro "clean_auto" : tactic => `(tactic|
+  repeat' (first | clean_leaf | (refine Clean.bind ?_ (fun _ _ => ?_)) | split))
+
+theorem step4 (f : Nat) (H1 : Stmt1 c N M f) (H4 : Stmt4 c N M f) : Stmt4 c N M (f + 1) := by
+  intro pfx ty sels e hD hS hF
+  cases sels with
+  | nil => rw [calcFields.eq_2 _ _ _ _ (by omega)]; exact Clean.pure _
+  | cons x rest =>
+    cases e with
+    | zero => have := selsDepth_cons_pos x rest; omega
+    | succ e =>
+      rw [selsDepth.eq_2] at hD
+      rw [selsSize.eq_2] at hS
+      simp only [Fneed, List.length_cons] at hF
+      have hrest : Clean (calcFields c f pfx ty rest) :=
+        H4 pfx ty rest (e + 1) (by omega) (by omega) (by simp only [Fneed]; omega)
+      cases x with
+      | field a fid sub =>
+        rw [selDepth.eq_1] at hD
+        rw [selSize.eq_1] at hS
+        have hsub : ∀ name pfx t, Clean (calcSelection c f name pfx t sub) :=
+          fun name pfx t => H1 name pfx t sub e (by omega) (by omega) (by omega)
+        rw [calcFields.eq_3]
+        simp only []
+        clean_auto
+        all_goals exact hsub _ _ _
+      | spread g =>
+        rw [calcFields.eq_4]
+        clean_auto
+      | inline t sub => rw [calcFields.eq_5 _ _ _ _ _ _ (by simp) (by simp)]; exact hrest
+      | typename => rw [calcFields.eq_5 _ _ _ _ _ _ (by simp) (by simp)]; exact hrest
+end CalcFuel
+
+
+section CalcFuel2
+variable (c : Ctx) (N M : Nat)
+
+theorem Fneed_pos (e L : Nat) : 1 ≤ Fneed N M e L := by
+  cases e <;> simp only [Fneed] <;> omega
+
+theorem Fneed_mono (e : Nat) {L L' : Nat} (h : L ≤ L') : Fneed N M e L ≤ Fneed N M e L' := by
+  cases e <;> simp only [Fneed] <;> omega
+
+theorem Sb_succ (e : Nat) : Sb N M (e + 1) = Sb N M e + (N + M + 4) := by
+  unfold Sb; rw [Nat.succ_mul]; omega
+
+theorem InlOK.tail {e : Nat} {x : VariantSel} {rest : List VariantSel} (h : InlOK N e (x :: rest)) :
+    InlOK N e rest :=
+  fun t sub hm => h t sub (List.mem_cons_of_mem _ hm)
+
+theorem InlOK.filter {e : Nat} {l : List VariantSel} (p : VariantSel → Bool) (h : InlOK N e l) :
+    InlOK N e (l.filter p) :=
+  fun t sub hm => h t sub (List.mem_filter.mp hm).1
+
+theorem step3 (f : Nat) (H3 : Stmt3 c N M f) (H4 : Stmt4 c N M f) : Stmt3 c N M (f + 1) := by
+  intro sname pfx vt mine e hI hF
+  cases mine with
+  | nil => rw [calcVariantSels.eq_2 _ _ _ _ _ (by omega)]; exact Clean.pure _
+  | cons x rest =>
+    simp only [List.length_cons] at hF
+    have hrest : Clean (calcVariantSels c f sname pfx vt rest) :=
+      H3 sname pfx vt rest e hI.tail (by omega)
+    cases x with
+    | spread g fr =>
+      rw [calcVariantSels.eq_5]
+      clean_auto
+    | inline t sub =>
+      have ⟨hd, hs⟩ := hI t sub (by simp)
+      have hsub : ∀ pfx, Clean (calcFields c f pfx vt sub) := fun pfx =>
+        H4 pfx vt sub e hd hs (by
+          have := Fneed_mono N M e (Nat.le_trans (length_le_selsSize sub) hs)
+          omega)
+      by_cases hsp : ∃ g, sub = [Sel.spread g]
+      · obtain ⟨g, rfl⟩ := hsp
+        rw [calcVariantSels.eq_3]
+        simp only []
+        clean_auto
+      · rw [calcVariantSels.eq_4 _ _ _ _ _ _ _ _ (fun g hg => hsp ⟨g, hg⟩)]
+        simp only []
+        clean_auto
+        all_goals exact hsub _
+
+theorem step2 (f : Nat) (H2 : Stmt2 c N M f) (H3 : Stmt3 c N M f) : Stmt2 c N M (f + 1) := by
+  intro name pfx vsels vts e hI hF
+  cases vts with
+  | nil => rw [calcVariants.eq_2 _ _ _ _ _ (by omega)]; exact Clean.pure _
+  | cons vt rest =>
+    simp only [List.length_cons] at hF
+    have hrest : Clean (calcVariants c f name pfx vsels rest) := H2 name pfx vsels rest e hI (by omega)
+    have hmine : ∀ sname, Clean (calcVariantSels c f sname pfx vt (vsels.filter (fun v => v.typeId == vt))) :=
+      fun sname => H3 sname pfx vt _ e (hI.filter N _) (by
+        have := List.length_filter_le (fun v : VariantSel => v.typeId == vt) vsels
+        omega)
+    rw [calcVariants.eq_3]
+    simp only []
+    clean_auto
+    all_goals exact hmine _
+
+theorem variantSels_spec (q : Query) (ty : TypeId) : ∀ (sels : List Sel) (vsels : List VariantSel),
+    sels.filterMapM (variantSelOf q ty) = .ok vsels →
+    vsels.length ≤ sels.length ∧ ∀ t sub, VariantSel.inline t sub ∈ vsels → Sel.inline t sub ∈ sels
+  | [], vsels, h => by
+    simp only [List.filterMapM_nil, pure, Except.pure, Except.ok.injEq] at h
+    subst h; simp
+  | x :: xs, vsels, h => by
+    rw [List.filterMapM_cons] at h
+    obtain ⟨o, ho, h⟩ := bind_ok h
+    cases o with
+    | none =>
+      have ⟨h1, h2⟩ := variantSels_spec q ty xs vsels h
+      exact ⟨by simp only [List.length_cons]; omega, fun t sub hm => List.mem_cons_of_mem _ (h2 t sub hm)⟩
+    | some v =>
+      simp only [] at h
+      obtain ⟨r, hr, h⟩ := bind_ok h
+      simp only [pure, Except.pure, Except.ok.injEq] at h
+      subst h
+      have ⟨h1, h2⟩ := variantSels_spec q ty xs r hr
+      refine ⟨by simp only [List.length_cons]; omega, ?_⟩
+      intro t sub hm
+      simp only [List.mem_cons] at hm
+      rcases hm with hm | hm
+      · subst hm
+        cases x with
+        | inline t' sub' =>
+          simp only [variantSelOf, pure, Except.pure, Except.ok.injEq, Option.some.injEq] at ho
+          cases ho; simp
+        | spread g =>
+          simp only [variantSelOf] at ho
+          obtain ⟨fr, _, ho⟩ := bind_ok ho
+          simp only [pure, Except.pure, Except.ok.injEq] at ho
+          split at ho <;> simp at ho
+        | field a b c' => simp [variantSelOf, pure, Except.pure] at ho
+        | typename => simp [variantSelOf, pure, Except.pure] at ho
+      · exact List.mem_cons_of_mem _ (h2 t sub hm)
+
+theorem step1 (hM : ∀ ty vts, variantsOf c.s ty = .ok (some vts) → vts.length ≤ M)
+    (f : Nat) (H2 : Stmt2 c N M f) (H4 : Stmt4 c N M f) : Stmt1 c N M (f + 1) := by
+  intro name pfx ty sels e hD hS hF
+  by_cases hsp : ∃ g, sels = [Sel.spread g]
+  · obtain ⟨g, rfl⟩ := hsp
+    rw [calcSelection.eq_2]
+    clean_auto
+  · rw [calcSelection.eq_3 _ _ _ _ _ _ (fun g hg => hsp ⟨g, hg⟩)]
+    have hL := length_le_selsSize sels
+    have hfields : Clean (calcFields c f pfx ty sels) := by
+      apply H4 pfx ty sels e hD hS
+      cases e with
+      | zero => simp only [Fneed]; unfold Sb at hF; omega
+      | succ e' => simp only [Fneed]; rw [Sb_succ] at hF; omega
+    simp only []
+    refine Clean.bind (clean_variantsOf _ _) (fun variants hv => ?_)
+    cases variants with
+    | none =>
+      simp only []
+      clean_auto
+    | some vts =>
+      simp only []
+      refine Clean.bind (clean_filterMapM _ (clean_variantSelOf _ _) _) (fun vsels hvs => ?_)
+      have ⟨hlen, hinl⟩ := variantSels_spec c.q ty sels vsels hvs
+      have hvl := hM ty vts hv
+      have hvar : Clean (calcVariants c f name pfx vsels vts) := by
+        cases e with
+        | zero =>
+          have : sels = [] := by
+            cases sels with
+            | nil => rfl
+            | cons x xs => have := selsDepth_cons_pos x xs; omega
+          subst this
+          have : vsels = [] := List.length_eq_zero_iff.mp (by simpa using hlen)
+          subst this
+          apply H2 name pfx [] vts 0 (fun t sub hm => by simp at hm)
+          simp only [Fneed, List.length_nil]; unfold Sb at hF; omega
+        | succ e' =>
+          have hI : InlOK N e' vsels := by
+            intro t sub hm
+            have hmem := hinl t sub hm
+            have h1 := selDepth_le_of_mem hmem
+            have h2 := selSize_le_of_mem hmem
+            rw [selDepth.eq_2] at h1
+            rw [selSize.eq_2] at h2
+            omega
+          apply H2 name pfx vsels vts e' hI
+          cases e' with
+          | zero => simp only [Fneed]; rw [Sb_succ] at hF; unfold Sb at hF; omega
+          | succ e'' => simp only [Fneed]; rw [Sb_succ, Sb_succ] at hF; omega
+      clean_auto
+
+theorem calc_clean (hM : ∀ ty vts, variantsOf c.s ty = .ok (some vts) → vts.length ≤ M) :
+    ∀ fuel, Stmt1 c N M fuel ∧ Stmt2 c N M fuel ∧ Stmt3 c N M fuel ∧ Stmt4 c N M fuel := by
+  intro fuel
+  induction fuel with
+  | zero =>
+    refine ⟨?_, ?_, ?_, ?_⟩
+    · intro _ _ _ _ e _ _ h; unfold Sb at h; omega
+    · intro _ _ _ _ e _ h; omega
+    · intro _ _ _ _ e _ h; omega
+    · intro _ _ _ e _ _ h; have := Fneed_pos N M e ‹List Sel›.length; omega
+  | succ f ih =>
+    obtain ⟨H1, H2, H3, H4⟩ := ih
+    exact ⟨step1 c N M hM f H2 H4, step2 c N M f H2 H3, step3 c N M f H3 H4, step4 c N M f H1 H4⟩
+
+end CalcFuel2
+
+
+/-! ### the fuel of `responseItems` / `fragmentItems` -/
+
+theorem le_foldl_add (l : List Nat) : ∀ (a x : Nat), (x ∈ l ∨ x ≤ a) → x ≤ l.foldl (· + ·) a := by
+  induction l with
+  | nil => intro a x h; simpa using h
+  | cons y ys ih =>
+    intro a x h
+    simp only [List.foldl_cons]
+    apply ih
+    simp only [List.mem_cons] at h
+    rcases h with (rfl | h) | h
+    · exact .inr (by omega)
+    · exact .inl h
+    · exact .inr (by omega)
+
+def totalSize (q : Query) : Nat :=
+  (q.fragments.map (fun f => selsSize f.sels) ++ q.operations.map (fun o => selsSize o.sels)).foldl (· + ·) 0
+def maxUnion (s : Schema) : Nat := (s.unions.map (fun u => u.variants.length)).foldl max 0
+
+theorem calcFuel_eq (s : Schema) (q : Query) :
+    calcFuel s q = walkFuel q * (totalSize q + s.objects.length + maxUnion s + 4) + 16 := rfl
+
+/-- an abstract type never has more variants than `#objects + (largest union)` -/
+theorem variants_length_le (s : Schema) (ty : TypeId) (vts : List TypeId)
+    (h : variantsOf s ty = .ok (some vts)) : vts.length ≤ s.objects.length + maxUnion s := by
+  cases ty with
+  | interface i =>
+    simp only [variantsOf, pure, Except.pure, Except.ok.injEq, Option.some.injEq] at h
+    subst h
+    simp only [List.length_map, Schema.implementors]
+    have := List.length_filter_le (fun (x : StoredObject × Nat) => x.1.implements.contains i) s.objects.zipIdx
+    simp only [List.length_zipIdx] at this
+    omega
+  | union i =>
+    simp only [variantsOf] at h
+    obtain ⟨un, hun, h⟩ := bind_ok h
+    simp only [pure, Except.pure, Except.ok.injEq, Option.some.injEq] at h
+    subst h
+    have hmem : un ∈ s.unions := by
+      unfold Schema.getUnion at hun
+      split at hun
+      · rename_i o ho
+        simp only [pure, Except.pure, Except.ok.injEq] at hun
+        subst hun; exact List.mem_of_getElem? ho
+      · simp [panic'] at hun
+    have : un.variants.length ≤ maxUnion s := by
+      apply le_foldl_max
+      left
+      exact List.mem_map.mpr ⟨un, hmem, rfl⟩
+    omega
+  | object i => simp [variantsOf, pure, Except.pure] at h
+  | scalar i => simp [variantsOf, pure, Except.pure] at h
+  | «enum» i => simp [variantsOf, pure, Except.pure] at h
+  | input i => simp [variantsOf, pure, Except.pure] at h
+
+/-- **fuel sufficiency of the `calc*` block**: for every selection set that is the body of one of the
+    query's operations or fragments (any name, prefix and parent type), `calcFuel` is enough -/
+theorem calcSelection_clean (c : Ctx) (name pfx : String) (ty : TypeId) (sels : List Sel)
+    (hd : selsDepth sels ≤ maxDepth c.q) (hs : selsSize sels ≤ totalSize c.q) :
+    Clean (calcSelection c (calcFuel c.s c.q) name pfx ty sels) := by
+  have H := (calc_clean c (totalSize c.q) (c.s.objects.length + maxUnion c.s)
+    (variants_length_le c.s) (calcFuel c.s c.q)).1
+  apply H name pfx ty sels (maxDepth c.q) hd hs
+  rw [calcFuel_eq, walkFuel_eq]
+  unfold Sb
+  obtain ⟨K, hK⟩ : ∃ K, K = totalSize c.q + c.s.objects.length + maxUnion c.s + 4 := ⟨_, rfl⟩
+  have e1 : totalSize c.q + (c.s.objects.length + maxUnion c.s) + 4 = K := by omega
+  rw [e1, ← hK]
+  have h1 : maxDepth c.q + 3 ≤ (c.q.fragments.length + 1) * (maxDepth c.q + 2) + 1 := by
+    rw [Nat.succ_mul]; omega
+  have h2 := Nat.mul_le_mul_right K h1
+  rw [Nat.add_mul] at h2
+  omega
+
+/-- **E**: `responseItems` never runs out of fuel (it never returns an `unmodelled` error at all),
+    for every operation of the query, with or without fragment spreads -/
+theorem responseItems_fuel_sufficient (c : Ctx) (op : ROperation) (hop : op ∈ c.q.operations) :
+    ∀ w, responseItems c op ≠ .error (.unmodelled w) := by
+  unfold responseItems
+  apply calcSelection_clean c _ _ _ _ (op_depth_le c.q op hop)
+  apply le_foldl_add
+  left
+  simp only [List.mem_append, List.mem_map]
+  exact .inr ⟨op, hop, rfl⟩
+
+/-- E for the items of a fragment -/
+theorem fragmentItems_fuel_sufficient (c : Ctx) (fid : Nat) :
+    ∀ w, fragmentItems c fid ≠ .error (.unmodelled w) := by
+  unfold fragmentItems
+  refine Clean.bind (clean_getFragment _ _) (fun f hf => ?_)
+  have hmem : f ∈ c.q.fragments := List.mem_of_getElem? (getFragment_ok hf)
+  apply calcSelection_clean c _ _ _ _ (frag_depth_le c.q f hmem)
+  apply le_foldl_add
+  left
+  simp only [List.mem_append, List.mem_map]
+  exact .inl ⟨f, hmem, rfl⟩
+
+
 
 end C02
 end GqlVerif
